@@ -94,6 +94,14 @@ int main(int argc, char **argv) {
     if (f == 4) for (int i = 0; i < n; i++) { slusym_assert_same((double)R[i], (double)Rin[i], "C06.factored.R.kept"); slusym_assert_same((double)C[i], (double)Cin[i], "C06.factored.C.kept"); }
     if (info > 0 && info <= n) { /* singular: no solve, B untouched */
       for (int j = 0; j < nrhs; j++) for (int i = 0; i < ldb; i++) e_assert_same(b[j * ldb + i], b0[j * ldb + i], "C04.expert.B.untouched");
+      /* growth factor of the leading info columns: min(1/safmin, min_j max|A_j| / max|U_j|), a zero U column counting as 1 */
+      { dense_t DLs, DUs; int ipc[NMAX]; if (f != 4 && h_is_perm(perm_c, n) && h_extract_LU(&L, &U, n, n, &DLs, &DUs)) { for (int j = 0; j < n; j++) ipc[perm_c[j]] = j;
+          real_t cap = (real_t)1 / RMACH("S"); real_t prod = rpg - cap; slusym_assert_cmp(5, (double)rpg, (double)cap, 1.0, "C12.growth.singular.leading-columns");
+          for (int j = 0; j < (int)info; j++) { real_t ma = 0, mu_ = 0; int oc = ipc[j]; for (int i = 0; i < n; i++) if (Dorig.nz[i][oc]) { elem_t e = Dorig.a[i][oc]; if (rowequ) e = e_scale(e, R[i]); if (colequ) e = e_scale(e, C[oc]); real_t t = e_abs1(e); ma = t > ma ? t : ma; }
+            for (int i = 0; i <= j; i++) if (DUs.nz[i][j]) { real_t t2 = e_abs1(DUs.a[i][j]); mu_ = t2 > mu_ ? t2 : mu_; }
+            if (slusym_entails_zero((double)mu_)) { slusym_assert_cmp(5, (double)rpg, 1.0, 1.0, "C12.growth.singular.leading-columns"); prod = prod * (rpg - 1); }
+            else { slusym_assert_cmp(5, (double)(rpg * mu_), (double)ma, 1.0, "C12.growth.singular.leading-columns"); prod = prod * (rpg * mu_ - ma); } }
+          slusym_assert_zero((double)prod, 1.0, "C12.growth.singular.attained"); } }
       break; }
     int effnotran = storage == 0 ? (tr == 1) : (tr != 1);     /* orientation seen by the column-compressed store */
     /* B on exit: scaled by the matching factor only */
@@ -113,6 +121,16 @@ int main(int argc, char **argv) {
       real_t eps = (sizeof(real_t) == 8) ? (real_t)1.1102230246251565e-16 : (real_t)5.9604644775390625e-08;
       if (info == n + 1) slusym_assert_cmp(4, (double)rcond, (double)eps, 1.0, "C12.warning.iff.rcond<eps"); else slusym_assert_cmp(3, (double)rcond, (double)eps, 1.0, "C12.warning.iff.rcond<eps"); }
     else slusym_assert_true(info != n + 1, "C12.no-warning-without-estimate");
+#if !IS_COMPLEX
+    if (cond && n <= 3 && f != 4 && symcols == 0) { /* (concrete A: exact rational check) rcond must not fall below 1/(||M|| ||M^-1||) of the factored matrix M (user orientation), 1-norm for NOTRANS else infinity norm */
+      elem_t M[NMAX][NMAX], Inv[NMAX][NMAX], sub[NMAX][NMAX];
+      for (int i = 0; i < n; i++) for (int j = 0; j < n; j++) { elem_t e = Dorig.a[i][j]; if (rowequ) e = e_scale(e, R[i]); if (colequ) e = e_scale(e, C[j]); if (storage == 0) M[i][j] = e; else M[j][i] = e; }
+      elem_t det = h_det(n, M);
+      for (int i = 0; i < n; i++) for (int j = 0; j < n; j++) { int r2 = 0; for (int a = 0; a < n; a++) { if (a == j) continue; int c2 = 0; for (int bb = 0; bb < n; bb++) { if (bb == i) continue; sub[r2][c2++] = M[a][bb]; } r2++; } elem_t cof = h_det(n - 1, sub); Inv[i][j] = ((i + j) & 1) ? -cof : cof; }   /* adjugate; M^-1 = Inv/det */
+      int one = (tr == 1); real_t nm = 0, ni = 0;
+      for (int k = 0; k < n; k++) { real_t sm = 0, si = 0; for (int l = 0; l < n; l++) { sm += e_abs1(one ? M[l][k] : M[k][l]); si += e_abs1(one ? Inv[l][k] : Inv[k][l]); } nm = sm > nm ? sm : nm; ni = si > ni ? si : ni; }
+      slusym_assert_cmp(3, (double)(rcond * nm * ni), (double)e_abs1(det), 1.0, "C12.rcond.not-below-true-value"); }
+#endif
     /* factors of this step: structure + identity against the (scaled) matrix that was factored */
     if (f != 4) { dense_t DL, DU, Bp, As; dense_clear(&As, n, n);
       for (int i = 0; i < n; i++) for (int j = 0; j < n; j++) if (Dorig.nz[i][j]) { elem_t e = Dorig.a[i][j]; if (rowequ) e = e_scale(e, R[i]); if (colequ) e = e_scale(e, C[j]); As.a[i][j] = e; As.nz[i][j] = 1; }
